@@ -177,6 +177,8 @@ Proof.
     rewrite P1, P2, P3;
     try match goal with E : crashing _ _ = _ |- _ => rewrite E end;
     repeat split; try assumption; try tauto; try congruence ].
+  (* a message leaving the unmodelled mailbox of a library actor *)
+  exists m. split; [reflexivity | exact R].
 Qed.
 
 Lemma R03_run tr s s' m :
